@@ -102,8 +102,23 @@ claim("C13",
       "Trusted: rustc MIR; serde/cbor2 recursion limits for visitor recursion. Not decided: value-level equality after a round trip for all types and values; derive-macro output.",
       "match-arm pair extraction by dominating variant edges (sibling agreement), must-pass-through on Ok edges, call-graph SCC budget witnesses, operand-provenance slicing", "DESIGN §4 C13")
 
-_pending = "rules for this property are not built yet in this round (see DESIGN §10 order of work); not claimed until they are"
-for pid in ["C17", "C18", "C19"]:
-    NA[pid] = _pending
+claim("C17",
+      "Decides the transactional skeleton: lock mode and liveness per command family, reads that cannot write (call-graph reachability, PREVIEW as the one shape-checked dry-run exception), "
+      "shell removal on every refusal after begin (this rule found the defect repaired by fix d4f7213), single assignment of element versions from the value commit computes, and commit step order. "
+      "Observable equality over the whole state space and reader isolation under real schedules are not decided; the PREVIEW-under-shared-lock overlap is recorded as an observation.",
+      "Trusted: rustc MIR; tokio RwLock; anda_db Collection methods are the only storage primitives. Not decided: nothing-observable-changed over all states, partial commit after a mid-loop storage failure.",
+      "call-graph effect reachability, guard-liveness dataflow, Err-edge must-pass-through to the shell removal, who-writes-field tables, CFG ordering", "DESIGN §4 C17")
+claim("C18",
+      "Decides that every transactional element put is followed by the version-log append of the same row, that element rows and the version log have only the confirmed writers/removers (log append-only, "
+      "removal only for staged purges), and that the read context routes a bound coordinate to the history and admits before caching/returning. Equality of historical and then-live answers is not decided.",
+      "Trusted: rustc MIR; the version log is the element_versions collection. Not decided: historical == then-live query results; schema environment resolution at the coordinate.",
+      "must-pass-through on Ok edges with same-row operand check, who-may-call / who-touches-collection tables from sliced receivers, variant-edge dominance", "DESIGN §4 C18")
+claim("C19",
+      "Decides the read choke point (who materialises element rows; admit decides and redacts before caching/returning; only redacted views on the KQL path), control-plane isolation (no authority-changing "
+      "Governance mutator reachable from any KIP command; governance blocks only by commit-time propagation on new rows; audit append-only), permission tables without permissionless fall-through, "
+      "per-element authorization before every staged change (dataflow from Targets::authorized or path-sensitive dominance), and decision order / default deny. Non-interference is not decided.",
+      "Trusted: rustc MIR and callee resolution; GovernanceStore is the only holder of governance collections. Not decided: non-interference, masked-field inference, delegation attenuation arithmetic.",
+      "call-graph reachability against an enumerated mutator set, who-may-read tables, def-use provenance of staged ids, path-sensitive must-pass-through, variant-edge dominance", "DESIGN §4 C19")
+
 NA["C20"] = ("every clause is an algebraic law over runtime multisets of assertions (permutation invariance, monotone score fold, thresholds); "
              "no clause is visible in the shape of the code, so static analysis cannot decide it (DESIGN §6)")
